@@ -37,6 +37,8 @@ ACCOUNTS = ['Expenses:Food', 'Expenses:Food:Fruit', 'Expenses:Drink', 'Expenses:
 VIRT_ACCOUNTS = ['Virt:Budget', 'Virt:Plan:Year', 'Budget']
 BALANCERS = ['Assets:Cash', 'Assets:Bank:Checking', 'Liabilities:Card', 'Equity', 'Assets:Bank:Savings']
 PAYEES = ['Shop', 'Cafe', 'shop', 'Book Store', 'Zed', 'Acme-1', 'Cafe 2', 'ACME', 'a']
+# payee names a date formatter would alter (strftime conversions, a literal %%) or cannot hold (127+ bytes)
+ODD_PAYEES = ['Save 50%d off', 'Tax %A', '100%', '%Y sale %%', 'Rate %b-%e', '5% off', 'L' * 140]
 # payees named by a posting only (`; Payee: NAME` on the posting): post_t::payee() honours them
 POST_PAYEES = ['Railways', 'Airport Taxi', 'Kiosk', 'Zed Ltd', 'Station Cafe', 'B']
 PAYEE_PATTERNS = ['Cafe', 'Shop', 'Rail', 'Taxi', 'Zed', 'Kiosk', 'Book', 'Acme', 'Station', 'xyz', 'o']
@@ -71,12 +73,14 @@ def gen_journal(rng, profile):
     syms = rng.sample(SYMS, nsym)
     accts = rng.sample(ACCOUNTS, rng.choice([3, 5, 7, len(ACCOUNTS)]))
     payees = rng.sample(PAYEES, rng.choice([1, 2, 3, 5]))
+    if rng.random() < 0.2:
+        payees += rng.sample(ODD_PAYEES[:-1], rng.choice([1, 2])) + (ODD_PAYEES[-1:] if rng.random() < 0.15 else [])
     base = datetime.date(2020, rng.randrange(1, 13), rng.randrange(1, 20))
     span = rng.choice([1, 3, 8, 40])
     # 10-30% of the postings name their own payee (a fresh name, another transaction's payee,
     # or their own transaction's payee again); a few journals have none
     tag_rate = rng.choice([0.0, 0.1, 0.2, 0.2, 0.3, 0.3])
-    fresh = rng.sample(POST_PAYEES, rng.choice([1, 2, 3]))
+    fresh = rng.sample(POST_PAYEES, rng.choice([1, 2, 3])) + (rng.sample(ODD_PAYEES[:-1], 1) if rng.random() < 0.1 else [])
     xs = []
     for _ in range(nx):
         d = base + datetime.timedelta(days=rng.randrange(span))
@@ -351,6 +355,22 @@ def compare(o, impl, mline, where):
         return ('%d rows' % len(impl), 'ERR')
     ir = impl_rows(o, impl, where)
     mr, groups = model_rows(body)
+    longs = []
+    for b in mr:
+        if b[2].startswith('F:'):
+            # the model says: this label is strftime(NAME) for that date (python's strftime is the
+            # same glibc function); from 127 bytes on the content of the 128-byte buffer is undefined
+            _, hx, dd = b[2].split(':')
+            name = bytes.fromhex(hx)
+            if len(name) >= 127:
+                longs.append(name[:100].hex())
+                b[2] = '?'
+            else:
+                b[2] = 'N:' + datetime.date.fromordinal(int(dd) + EPOCH).strftime(name.decode()).encode().hex()
+    if longs:
+        for a in ir:
+            if any(a[2][2:].startswith(h) for h in longs):
+                a[2] = '?'
     if status == 'UNSPEC':
         # the comparator is not a strict weak order on these rows: std::stable_sort's result is
         # unspecified; the rows must still be the same multiset (totals depend on the order)
@@ -359,27 +379,6 @@ def compare(o, impl, mline, where):
         a = sorted(tuple(r[:5]) for r in ir)
         b = sorted(tuple(r[:5]) for r in mr)
         return None if a == b else (a, b)
-    if o.coll is not None and o.coll > 0 and len(ir) == len(mr):
-        # rows of one --depth group come in account-address order: compare each group as a set,
-        # and the running total at the end of the group only
-        i = 0
-        ir2, mr2 = [], []
-        while i < len(mr):
-            j = i
-            while j < len(mr) and groups[j] == groups[i] and groups[i] % 3 == 1:
-                j += 1
-            j = max(j, i + 1)
-            for rows, dst in ((ir, ir2), (mr, mr2)):
-                blk = [list(r) for r in rows[i:j]]
-                # (precision counters and zero entries of the total depend on the order too)
-                last = str(sorted((str(k), str(q)) for k, q in vec(blk[-1][5]).items()))
-                for r in blk:
-                    r[5] = '*'
-                blk.sort()
-                blk[-1][5] = last
-                dst += blk
-            i = j
-        ir, mr = ir2, mr2
     return None if ir == mr else (['|'.join(r) for r in ir], ['|'.join(r) for r in mr])
 
 
@@ -468,16 +467,50 @@ def oracle_sort(o, P, R):
     return out
 
 
-def oracle_window(o, Q, R):
+def group_sizes(o, P, Q):
+    """how the rows of a regrouped register Q fall into transactions (generated rows carry no
+    line number): one row per transaction under --collapse, one row per account cut at N per
+    transaction of the plain register P under --depth N, everything in one transaction under
+    --subtotal, one transaction per payee / weekday label under --by-payee / --dow"""
+    if o.sort or (o.grp != 'none' and o.coll is not None) or isinstance(P, str):
+        return None
+    if o.grp == 'sub':
+        sizes = [len(Q)] if Q else []
+    elif o.grp in ('payee', 'dow'):
+        sizes = []
+        for i, r in enumerate(Q):
+            if i and Q[i - 1].payee == r.payee:
+                sizes[-1] += 1
+            else:
+                sizes.append(1)
+    elif o.coll == 0:
+        sizes = [1] * len(Q)
+    else:
+        sizes, last = [], None
+        for r in P:
+            if r.line != last:
+                sizes.append(set())
+                last = r.line
+            sizes[-1].add(cut_account(r.acct, o.coll))
+        sizes = [len(x) for x in sizes]
+    return sizes if sum(sizes) == len(Q) else None
+
+
+def oracle_window(o, Q, R, sizes=None):
     """--head/--tail against the same report without them"""
     if isinstance(R, str) or isinstance(Q, str):
         return [] if R == Q else [('head-tail:error', 'fails with --head/--tail only', R, 'rows')]
-    if any(r.line == 0 for r in Q):
-        return []
     if (o.head is not None and o.head < 0) or (o.tail is not None and o.tail < 0):
         return []
     groups = []
-    for r in Q:
+    if sizes is not None:
+        i = 0
+        for n in sizes:
+            groups.append(Q[i:i + n])
+            i += n
+    elif any(r.line == 0 for r in Q):
+        return []
+    for r in (Q if sizes is None else []):
         if groups and groups[-1][0].line == r.line:
             groups[-1].append(r)
         else:
@@ -493,6 +526,44 @@ def oracle_window(o, Q, R):
                  '%s does not keep exactly the first/last N of %d transactions' % (o.text(), n),
                  [r.full() for r in R][:6], [r.full() for r in keep][:6])]
     return []
+
+
+def oracle_sort_after(o, Q, R):
+    """`reg REGROUP --sort K` against `reg REGROUP`: the same rows (as a multiset), ordered by K, ties in
+    the order of the unsorted report, the same grand total"""
+    name = (o.grp if o.grp != 'none' else '') + ('collapse' if o.coll == 0 else ('depth' if o.coll else ''))
+    if isinstance(R, str) or isinstance(Q, str):
+        return [] if R == Q else [('sort-after-%s:error' % name, 'reg %s fails, without --sort it does not' % o.text(), R, 'rows')]
+    keys = o.sort.split(',')
+    qa, ra = sorted(r.ident() for r in Q), sorted(r.ident() for r in R)
+    if qa != ra:
+        return [('sort-after-%s:not-a-permutation' % name,
+                 'reg %s does not hold exactly the rows of the same report without --sort (%d rows, %d without)' % (o.text(), len(R), len(Q)),
+                 [r.ident() for r in R][:8], [r.ident() for r in Q][:8])]
+    out = []
+    odd = any(k.lstrip('-') == 'amount' for k in keys) and \
+        any(any(s_ is None or q == 0 for s_, q in entries(r.amt)) for r in Q) and \
+        len({s_ for r in Q for s_, q in entries(r.amt) if s_ is not None}) >= 2
+    cls = 'sort:amount:zero-or-bare-amount-among-commodities' if odd else None
+    if any(k.lstrip('-') == 'amount' for k in keys) and any(not r.amt.startswith('A:') for r in Q):
+        # a multi-commodity row is "not even tried" to be sorted (value.cc:2193): it compares equal to
+        # every other row, which leaves the single-commodity rows around it unordered as well
+        cls = 'sort:amount:multi-commodity-row-among-amounts'
+    for i in range(len(R)):
+        if any(rows_cmp(keys, R[i], R[j]) == 1 for j in range(i + 1, len(R))):
+            out.append((cls or 'sort-after-%s:order' % name, 'reg %s: row %d sorts after a later row' % (o.text(), i),
+                        [r.ident() for r in R][:8], 'rows ordered by the sort key'))
+            break
+    if not any(k.lstrip('-') == 'amount' and any(not r.amt.startswith('A:') for r in Q) for k in keys):
+        for kt in {key_tuple(keys, r) for r in Q}:
+            a = [r.ident() for r in R if key_tuple(keys, r) == kt]
+            b = [r.ident() for r in Q if key_tuple(keys, r) == kt]
+            if a != b:
+                out.append((cls or 'sort-after-%s:unstable' % name, 'rows with equal sort key changed their relative order', a[:6], b[:6]))
+                break
+    if not totals_are_prefix_sums(R) or (R and Q and vec(R[-1].tot) != vec(Q[-1].tot)):
+        out.append(('sort-after-%s:total' % name, 'reg %s: running / grand total is not the sum of the rows' % o.text(), None, None))
+    return out
 
 
 def oracle_payee_query(o, P, R):
@@ -566,7 +637,7 @@ def oracle_regroup(o, P, R):
                 exp.append([(d, py, a.decode(), vsum([r for r in m if r.acct.encode() == a]))])
     got = [(r.days, r.payee, r.acct, vec(r.amt)) for r in R]
     flat = [t for g in exp for t in g]
-    bad = None
+    bad = label = None
     if len(got) != len(flat):
         bad = 'wrong number of rows (%d, expected %d groups)' % (len(got), len(flat))
     else:
@@ -576,12 +647,17 @@ def oracle_regroup(o, P, R):
             for (d, py, a, v), (gd, gpy, ga, gv) in zip(g, blk):
                 if v != gv:
                     bad = 'a group value is not the exact per-commodity sum of its members'
+                elif o.grp == 'payee' and d == gd and a == ga and py != gpy and ('%' in py or len(py.encode()) >= 127):
+                    label = (gpy[:200], py[:200])
                 elif d != gd or (py is not None and py != gpy) or (a is not None and a != ga):
                     bad = bad or 'a group row carries the wrong date, payee or account'
             i += len(g)
     out = []
     if bad:
         out.append(('%s:group' % name, 'reg %s: %s' % (o.text(), bad), got[:8], flat[:8]))
+    if label:
+        out.append(('payee:label:percent-sequence-or-overlong-payee',
+                    'reg %s does not show the payee name as it is' % o.text(), label[0], label[1]))
     if vsum(R) != vsum(P) or (R and vec(R[-1].tot) != vsum(P)) or not totals_are_prefix_sums(R):
         out.append(('%s:grand-total' % name, 'reg %s: the grand total differs from the plain register' % o.text(),
                     vsum(R), vsum(P)))
@@ -599,7 +675,15 @@ def judge(o, outs):
     elif o.head is not None or o.tail is not None:
         ref = outs.get(o.but(head=None, tail=None).text())
         if ref is not None:
-            found = oracle_window(o, ref, R)
+            sizes = None
+            if o.regroups() and not isinstance(ref, str):
+                P = outs.get(o.but(head=None, tail=None, grp='none', coll=None, sort=None).text())
+                sizes = group_sizes(o, P, ref) if P is not None else None
+            found = oracle_window(o, ref, R, sizes)
+    elif o.sort and o.regroups():
+        ref = outs.get(o.but(sort=None).text())
+        if ref is not None:
+            found = oracle_sort_after(o, ref, R)
     elif o.sort and not o.regroups():
         ref = outs.get(o.but(sort=None).text())
         if ref is not None and not isinstance(ref, str):
@@ -655,16 +739,21 @@ def cases_for(rng, xs, thorough):
         out.append(f.but(tail=rng.choice([-1, -2, -nx, -nx - 1])))
         for g in (dict(coll=0), dict(grp='sub'), dict(grp='payee'), dict(grp='dow'), dict(coll=1), dict(coll=2), dict(coll=3)):
             out.append(f.but(**g))
-        # combinations, in the order of the chain
+        # combinations, in the order of the chain: every regrouping option followed by --sort and by
+        # --head/--tail (keys that separate the postings of a transaction included)
+        odd_payee = any('%' in e or len(e) >= 127 for e in {post_payee(x, p) for x in xs for p in x['posts']})
         out.append(f.but(sort=rng.choice(SORTS), head=rng.choice(ns)))
         out.append(f.but(sort=rng.choice(SORTS), tail=rng.choice(ns)))
-        out.append(f.but(coll=0, sort=rng.choice(['date', 'payee', '-payee,date', 'amount', '-date'])))
-        out.append(f.but(coll=0, head=rng.choice(ns)))
-        out.append(f.but(coll=rng.choice([1, 2]), tail=rng.choice(ns)))
-        out.append(f.but(grp='sub', sort=rng.choice(['account', '-account', 'amount', '-amount'])))
-        out.append(f.but(grp='payee', sort=rng.choice(['payee,-account', '-payee', 'amount,payee', 'date'])))
-        out.append(f.but(grp='payee', head=rng.choice(ns)))
-        out.append(f.but(grp='dow', tail=rng.choice([0, 1, 2, 3])))
+        for g in (dict(coll=0), dict(grp='sub'), dict(grp='payee'), dict(grp='dow'), dict(coll=1), dict(coll=2), dict(coll=3)):
+            keys = ['amount', '-amount', 'account', '-account', 'date', '-date', 'account,-amount', '-amount,account', 'date,amount']
+            if g.get('grp') in (None, 'payee') and not (g.get('grp') == 'payee' and odd_payee):
+                keys += ['payee', '-payee,date', 'payee,-account', 'amount,payee']
+            for k in rng.sample(keys, 4 if thorough else 2):
+                out.append(f.but(sort=k, **g))
+            out.append(f.but(head=rng.choice(ns), **g))
+            out.append(f.but(tail=rng.choice(ns), **g))
+            if rng.random() < 0.3:
+                out.append(f.but(head=rng.choice(ns), tail=rng.choice(ns), **g))
         out.append(f.but(grp=rng.choice(['payee', 'dow', 'sub']), coll=rng.choice([0, 0, 1, 2])))
     return out
 
@@ -678,7 +767,7 @@ def run(ctx, n_override=None, oracle_only=False):
                 'and negative, --collapse/--subtotal/--by-payee/--dow/--depth 1-3, alone, with --real/--cleared/--pending/'
                 'an account query/a payee query, and combined in chain order); a case is non-trivial when the option changes the rows of '
                 'the reference register, or N lies strictly inside 0..count; distinct by journal text + option text')
-    nj = n_override or ctx.scale(150, 1200)
+    nj = n_override or ctx.scale(150, 800)
     thorough = ctx.tier == 'thorough'
     all_model_lines, pending = [], []
     for j in range(nj):
@@ -757,7 +846,8 @@ def replay(ctx, obj):
         path = ctx.path('replay.dat')
         open(path, 'w').write(case['journal'])
         o = Opt(**case['opt'])
-        todo = [o, o.but(head=None, tail=None), o.but(sort=None), o.but(grp='none', coll=None), o.but(pquery=None)]
+        todo = [o, o.but(head=None, tail=None), o.but(sort=None), o.but(grp='none', coll=None), o.but(pquery=None),
+                o.but(head=None, tail=None, grp='none', coll=None, sort=None)]
         outs = {}
         for x in todo:
             if x.text() not in outs:
